@@ -19,3 +19,7 @@ Proof. vm_compute. repeat split; reflexivity. Qed.
 
 Lemma self_appends_ok : self_appends = tree_self_appends.
 Proof. vm_compute. reflexivity. Qed.
+
+(* Where.Build swaps a leading single Or on a private copy (the model's h_swap allocates) *)
+Lemma where_swap_ok : where_build_swap = MCopy.
+Proof. vm_compute. reflexivity. Qed.
